@@ -124,6 +124,43 @@ Section Disjoint.
         * intros o' x Ho' Hx. apply (H1 i o' x Ho' Hx).
   Qed.
 
+
+  (* ---- the converse direction: the hypothesis is needed in EVERY interleaving.  Every operation of every thread occurs in
+     every interleaving; so if two different threads contain operations with a conflicting footprint, every execution of the
+     program contains a conflicting pair of accesses (whatever the schedule) *)
+  Lemma dsched_complete : forall ts tr, dsched ts tr -> forall i o, In o (nth i ts []) -> In (i, o) tr.
+  Proof.
+    induction 1 as [ts Hf | ts j o' rest tr Hn Hs IH]; intros i o Hin.
+    - destruct (nth_in_or_default i ts []) as [H|H]; [|rewrite H in Hin; destruct Hin].
+      rewrite Forall_forall in Hf. rewrite (Hf _ H) in Hin. destruct Hin.
+    - assert (j < length ts) as Hl by (apply nth_error_Some; congruence).
+      destruct (Nat.eq_dec i j) as [E|E].
+      + subst i. rewrite (nth_error_nth_nil _ _ _ Hn) in Hin. destruct Hin as [Hin|Hin].
+        * subst o'. left; reflexivity.
+        * right. apply IH. rewrite nth_set_nth_same by exact Hl. exact Hin.
+      + right. apply IH. rewrite nth_set_nth_other by exact E. exact Hin.
+  Qed.
+
+  Definition overlap (a b : op) : Prop :=
+    exists x, (In x (writes a) /\ (In x (reads b) \/ In x (writes b))) \/ (In x (reads a) /\ In x (writes b)).
+
+  Lemma overlap_sym : forall a b, overlap a b -> overlap b a.
+  Proof. intros a b [x H]. exists x. tauto. Qed.
+
+  Definition ConflictAlwaysRaces_stmt : Prop :=
+    forall ts tr i j a b, dsched ts tr -> i <> j -> In a (nth i ts []) -> In b (nth j ts []) -> overlap a b -> dhas_race tr.
+  Lemma conflict_always_races : ConflictAlwaysRaces_stmt.
+  Proof.
+    intros ts tr i j a b Hs Hij Ha Hb Ho.
+    pose proof (dsched_complete _ _ Hs _ _ Ha) as Ia. pose proof (dsched_complete _ _ Hs _ _ Hb) as Ib.
+    apply In_nth_error in Ia. apply In_nth_error in Ib. destruct Ia as [k Hk]. destruct Ib as [l Hl].
+    destruct (Nat.lt_trichotomy k l) as [L|[L|L]].
+    - exists k, l, (i, a), (j, b). repeat split; try assumption.
+    - subst l. rewrite Hk in Hl. inversion Hl. congruence.
+    - exists l, k, (j, b), (i, a). repeat split; try assumption; [cbn; congruence|].
+      destruct (overlap_sym _ _ Ho) as [x Hx]. exists x. exact Hx.
+  Qed.
+
   (* the read-only case of RaceFree.v is the instance "nobody writes" *)
   Definition dread_only (ts : list (list op)) : Prop := forall t o, In t ts -> In o t -> writes o = [].
   Lemma read_only_confined : forall ts, dread_only ts -> confined (fun _ _ => True) ts.
